@@ -161,6 +161,11 @@ pub fn many_breakpoints(n: usize) -> (Prog, Vec<Action>) {
         let a = orig + 1 + ((i * mul) % n) as u16;
         acts.push(Action::of(Cmd::BreakAdd(Loc::Abs(a))));
     }
+    // a second breakpoint on addresses that have one, and the removal of one that does not exist
+    for i in [0, n / 2, n - 1] {
+        acts.push(Action::of(Cmd::BreakAdd(Loc::Abs(orig + 1 + i as u16))));
+    }
+    acts.push(Action::of(Cmd::BreakRemove(Loc::Abs(orig + 1 + n as u16))));
     for _ in 0..3 {
         acts.push(Action::of(Cmd::Continue));
     }
@@ -180,7 +185,7 @@ fn judge_many(n: usize) -> Option<Mismatch> {
     let (prog, acts) = many_breakpoints(n);
     let actions: Vec<&Action> = acts.iter().collect();
     // after the additions and three continues; and at the end
-    for cut in [n, n + 3, actions.len()] {
+    for cut in [n, n + 4, n + 7, actions.len()] {
         let part = &actions[..cut];
         let obs = match run_real_fuel(&prog, part, Tail::Exit, true, 2_000_000) {
             Ok(o) => o,
